@@ -575,16 +575,17 @@ def _srt(e):
 SIGS = {
     # 'a in [1, 2]' -> 'a in {1, 2}' with an unhashable a: TypeError afterwards only
     "membership_in_set_needs_hashable": lambda c: c["rule"] == "ROct" and c["after"][0] == "TypeError"
-    and c["before"][0] != "TypeError" and _has(c["q"], lambda e: e[0] == "inset" and e[1][0] == "var"),
+    and c["after"][1] == c["before"][1][:len(c["after"][1])] and len(c["after"][1]) < len(c["before"][1]) + (c["before"][0] != "TypeError")
+    and _has(c["q"], lambda e: e[0] == "inset" and e[1][0] == "var"),
     # sorted(.., key=..)[-1] / [-n:]: ties in reverse order
     "sorted_tail_ties": lambda c: c["rule"] == "RHq"
     and _has(c["p"], lambda e: e[0] in ("idxl", "sfrom") and _srt(e[1]) and e[1][1]),
     # [-n:] with n == 0
     "sorted_tail_of_length_zero": lambda c: c["rule"] == "RHq"
     and _has(c["p"], lambda e: e[0] == "sfrom" and _srt(e[1]) and e[2][0] != "int" or (e[0] == "sfrom" and _srt(e[1]) and e[2] == ("int", 0))),
-    # [:n] / [-n:] with n that is not a positive integer literal (a name holding -1, 0, None; the literal 0 with an iterator)
+    # [:n] / [-n:] with n a name (holding -1, 0, None, ...) or the literal 0 (an iterator argument is not used up)
     "heapq_count_not_positive": lambda c: c["rule"] == "RHq"
-    and _has(c["p"], lambda e: e[0] in ("sto", "sfrom") and _srt(e[1]) and not (e[2][0] == "int" and e[2][1] > 0)),
+    and _has(c["p"], lambda e: e[0] in ("sto", "sfrom") and _srt(e[1]) and (e[2][0] != "int" or e[2][1] == 0)),
     # IndexError before, ValueError after: the empty case
     "empty_sorted_exception_class": lambda c: c["rule"] == "RHq" and c["before"][0] == "IndexError"
     and c["after"][0] == "ValueError" and c["before"][1] == c["after"][1]
@@ -648,7 +649,7 @@ def check(run, mods, wd, rnd) -> dict:
     kf = common.load_findings("C02")
     progs, seen = [], set()
 
-    def add(p, seeded):
+    def add(p, seeded, own=None):
         try:
             src = p_prog(p)
             if parse_prog(src) != p:
@@ -658,18 +659,20 @@ def check(run, mods, wd, rnd) -> dict:
             return
         if src not in seen:
             seen.add(src)
-            progs.append((p, src, seeded))
+            progs.append((p, src, seeded, own))
 
-    for fam in (fam_rri, fam_oct, fam_hq):
+    for fam, own in ((fam_rri, "RRri"), (fam_oct, "ROct"), (fam_hq, "RHq")):
         for p in fam():
-            add(p, False)
+            add(p, False, own)
     n_exh = len(progs)
     for _ in range(300 if quick else 6000):
         add(rand_prog(rnd), True)
 
     cases, problems, fired = [], [], {}
-    for p, src, seeded in progs:
+    for pi, (p, src, seeded, own) in enumerate(progs):
         for g_rule, fname in RULES.items():
+            if quick and own is not None and own != g_rule and pi % 4:
+                continue          # quick tier: the other two rules on every fourth module of a family
             try:
                 out = apply_rule(mods, fname, src)
             except Exception as e:  # noqa
